@@ -16,7 +16,14 @@ import (
 	"verif/harness/internal/vk"
 )
 
-const verifRoot = "/verif"
+// verifRoot is where DESIGN.md, known_findings.json, evidence/ and harness/ live: /verif, or the directory the check
+// script was started from when that is a snapshot of it (VERIF_ROOT, set by ./check)
+var verifRoot = func() string {
+	if r := os.Getenv("VERIF_ROOT"); r != "" {
+		return r
+	}
+	return "/verif"
+}()
 
 // evidenceRoot is /verif/evidence unless a dev-time run redirects it.
 func evidenceRoot() string {
@@ -244,7 +251,7 @@ func buildRace(scratch string) (string, error) {
 	bin := filepath.Join(scratch, "vcheck-race")
 	args := []string{"build", "-race", "-tags", "verif", "-o", bin}
 	if alt := os.Getenv("VERIF_ALT_REPO"); alt != "" {
-		args = append(args, "-modfile="+filepath.Join("/verif/.bin", "alt-"+strings.ReplaceAll(alt, "/", "_"), "go.mod"))
+		args = append(args, "-modfile="+filepath.Join(verifRoot, ".bin", "alt-"+strings.ReplaceAll(alt, "/", "_"), "go.mod"))
 	}
 	args = append(args, "./cmd/vcheck")
 	cmd := exec.Command("go", args...)
